@@ -54,6 +54,12 @@ func (Area) Gen(r *rand.Rand, tier string, emit func(string)) {
 			emit(fmt.Sprintf("dl %s %s %d", e, s, timeouts[r.Intn(len(timeouts))]))
 		}
 	}
+	// the real AdaptedClientConn against a target that accepts TCP but never speaks HTTP/2 (stream creation
+	// is what the deadline interrupts), and a gRPC-Web client that keeps its request body open (judged at the
+	// handler: net/http's HTTP/1.1 server cannot deliver a response while the request body is open)
+	emit(fmt.Sprintf("dl httpreal silent %d", timeouts[r.Intn(len(timeouts))]))
+	emit(fmt.Sprintf("dl grpcwebopen nomsg %d", timeouts[r.Intn(len(timeouts))]))
+	emit(fmt.Sprintf("dl grpcwebopen midstream %d", timeouts[r.Intn(len(timeouts))]))
 	// a well-formed ZERO timeout is a deadline that has already passed, not "no timeout"
 	for _, e := range entries {
 		emit(fmt.Sprintf("dl %s %s 0", e, shapes[r.Intn(len(shapes))]))
@@ -184,6 +190,11 @@ func (Area) Exec(input string) string {
 		o = runGRPCWS(rt, t, hdr, limit)
 	case "proxy":
 		o = runProxy(rt, t, toMs, limit)
+	case "httpreal":
+		o = runHTTPReal(t, hdr, limit)
+	case "grpcwebopen":
+		t.shape = "idle"
+		o = runGRPCWebOpen(rt, t, hdr, shape == "midstream", toMs)
 	default:
 		return "BADOP"
 	}
@@ -218,6 +229,104 @@ func runHTTP(rt router, t *target, hdr string, limit time.Duration) obs {
 		return obs{el, "deadline"}
 	}
 	return obs{el, fmt.Sprintf("http%d", resp.StatusCode)}
+}
+
+// realRouter routes to a real AdaptedClientConn.
+type realRouter struct {
+	conn grpcadapter.ClientConn
+	desc *bridgedesc.Target
+}
+
+func (r realRouter) RouteHTTP(req *http.Request) (grpcadapter.ClientConn, routing.HTTPRoute, error) {
+	svc := &r.desc.Services[0]
+	return r.conn, routing.HTTPRoute{Target: r.desc, Service: svc, Method: &svc.Methods[0],
+		Binding: &bridgedesc.Binding{HTTPMethod: "POST", Pattern: req.URL.Path, RequestBodyPath: "*"}}, nil
+}
+
+// runHTTPReal: transcoded HTTP call to a target that accepts TCP connections but never speaks HTTP/2, through the
+// real AdaptedClientConn (waitForReady + NewStream are what the deadline has to interrupt).
+func runHTTPReal(t *target, hdr string, limit time.Duration) obs {
+	ln, err := net.Listen("tcp", "127.0.0.1:0")
+	if err != nil {
+		return obs{0, "listenerr"}
+	}
+	defer ln.Close()
+	cc, err := grpc.NewClient(ln.Addr().String(), grpc.WithTransportCredentials(insecure.NewCredentials()))
+	if err != nil {
+		return obs{0, "dialerr"}
+	}
+	ac := grpcadapter.AdaptClient(cc)
+	defer ac.Close()
+	srv := httptest.NewServer(webbridge.NewTranscodedHTTPBridge(realRouter{ac, newDesc()}, webbridge.TranscodedHTTPBridgeOpts{}))
+	defer srv.Close()
+	req, _ := http.NewRequest("POST", srv.URL+"/ss", strings.NewReader("{}"))
+	req.Header.Set("Grpc-Timeout", hdr)
+	req.Header.Set("Content-Type", "application/json")
+	cl := &http.Client{Timeout: limit}
+	t.start = time.Now()
+	resp, err := cl.Do(req)
+	if err != nil {
+		return obs{time.Since(t.start).Milliseconds(), "clienterr"}
+	}
+	_, _ = io.ReadAll(resp.Body)
+	resp.Body.Close()
+	el := time.Since(t.start).Milliseconds()
+	if resp.StatusCode == 504 {
+		return obs{el, "deadline"}
+	}
+	return obs{el, fmt.Sprintf("http%d", resp.StatusCode)}
+}
+
+// lockedRecorder is a minimal concurrency-safe ResponseWriter.
+type lockedRecorder struct {
+	mu   sync.Mutex
+	h    http.Header
+	body []byte
+}
+
+func (w *lockedRecorder) Header() http.Header { return w.h }
+func (w *lockedRecorder) WriteHeader(int)     {}
+func (w *lockedRecorder) Write(b []byte) (int, error) {
+	w.mu.Lock()
+	w.body = append(w.body, b...)
+	w.mu.Unlock()
+	return len(b), nil
+}
+
+// runGRPCWebOpen calls GRPCWebBridge.ServeHTTP in-process with a request body that stays OPEN (a client idle on an
+// open stream, before or after its first message): the handler itself must finish at the deadline with the
+// DeadlineExceeded trailer written.
+func runGRPCWebOpen(rt router, t *target, hdr string, sendOne bool, toMs int) obs {
+	h := webbridge.NewGRPCWebBridge(rt, webbridge.GRPCWebBridgeOpts{})
+	pr, pw := io.Pipe()
+	defer pw.Close()
+	req := httptest.NewRequest("POST", "/t.S/Bidi", pr)
+	req.Header.Set("Content-Type", "application/grpc-web+proto")
+	req.Header.Set("Grpc-Timeout", hdr)
+	w := &lockedRecorder{h: http.Header{}}
+	if sendOne {
+		go func() { _, _ = pw.Write([]byte{0, 0, 0, 0, 0}) }()
+	}
+	done := make(chan struct{})
+	t.start = time.Now()
+	go func() { defer close(done); h.ServeHTTP(w, req) }()
+	select {
+	case <-done:
+	case <-time.After(time.Duration(toMs)*time.Millisecond + 3*time.Second):
+		el := time.Since(t.start).Milliseconds()
+		pw.Close() // let the stuck handler go
+		<-done
+		return obs{el, "handler-stuck-on-open-body"}
+	}
+	el := time.Since(t.start).Milliseconds()
+	w.mu.Lock()
+	body := append([]byte{}, w.body...)
+	w.mu.Unlock()
+	if st := parseTrailerStatus(body); st == fmt.Sprint(int(codes.DeadlineExceeded)) {
+		return obs{el, "deadline"}
+	} else {
+		return obs{el, "grpcstatus" + st}
+	}
 }
 
 func wsURL(u string) string { return "ws" + strings.TrimPrefix(u, "http") }
